@@ -745,7 +745,15 @@ def run_sequence(arg):
         rid = id(root)
         call = None
         read_caches(root)
-        if script and script[step][0] == 'raw':
+        if script and script[step][0] == 'raw-to':
+            _, path, to_path, new = script[step]
+            op = r['op'] = 'raw-put-to'
+            ra, rb = cpy_bloc(tree0, lines, path), cpy_bloc(tree0, lines, to_path)
+            rect = [ra[0], ra[1], rb[2], rb[3]]
+            node, to = root.child_from_path(_astpath(path)), root.child_from_path(_astpath(to_path))
+            r.update(rect=rect, new=new, rk='scripted-history', nk='scripted', on=node.a.__class__.__name__, node_path=path, to_path=to_path)
+            call = lambda: node.replace(new, raw=True, pars=False, to=to)
+        elif script and script[step][0] == 'raw':
             _, path, new = script[step]
             op = r['op'] = 'raw-put'
             rect = cpy_bloc(tree0, lines, path)
@@ -797,6 +805,29 @@ def run_sequence(arg):
             r.update(rect=rect, new=new, rk='raw-node:' + ('stmtlike' if isinstance(node.a, STMTLIKE) else 'other'), nk=nk,
                      on=node.a.__class__.__name__, node_path=path)
             call = lambda: node.replace(new, raw=True, pars=False)
+        elif op == 'raw-put-to':
+            # raw put of one node through the end of a LATER node (`to=`): same statement, a later `;` statement on the same
+            # line, a later line, another block
+            node = _pick_fst_node(root, rng, False)
+            if node is None:
+                break
+            nl = node.loc
+            later = [f for f in root.walk(True) if f is not root and f.loc is not None and isinstance(f.a, (ast.expr, ast.stmt))
+                     and (f.loc.ln, f.loc.col) >= (nl.end_ln, nl.end_col)]
+            same_line = [f for f in later if f.loc.ln == nl.end_ln]
+            pool = same_line if same_line and rng.random() < 0.7 else later
+            if not pool:
+                continue
+            to = rng.choice(pool)
+            path, to_path = _path_of(root, node), _path_of(root, to)
+            ra, rb = cpy_bloc(tree0, lines, path), cpy_bloc(tree0, lines, to_path)
+            if ra is None or rb is None:
+                continue
+            rect = [ra[0], ra[1], rb[2], rb[3]]
+            new = rng.choice(['zq', splice_get(lines, *ra), '0', 'w.v', rng.choice(EXPRS)])
+            r.update(rect=rect, new=new, rk='raw-to:' + ('same-line' if to.loc.ln == nl.end_ln else 'later-line'), nk='expr',
+                     on=node.a.__class__.__name__, node_path=path, to_path=to_path)
+            call = lambda: node.replace(new, raw=True, pars=False, to=to)
         else:  # reparse()
             node = _pick_fst_node(root, rng)
             if node is None:
@@ -923,6 +954,10 @@ def corr_plan(r, m):
                 bad.append(f'first_line_col_delta differs: impl={base["first_line_col_delta"]} model={m["delta"]}')
             if not base['parsed'] or base['parsed'][0]['src'] != '\n'.join(m['handed']):
                 bad.append(f'text handed to the parser differs: impl={base["parsed"][:1]!r} model={chr(10).join(m["handed"])!r}')
+            rr = ev_of(r, 'rect')['rect']
+            if m.get('rect_in_region') is False and not st['is_root']:
+                bad.append(f'the node handed to _reparse_raw does not contain the replaced rectangle: region={st["bloc"]} rectangle={rr} '
+                           f'(precondition of the region model, Pfst.Raw.rectInRegion)')
             if base['self_path'] != st['path']:
                 bad.append(f'reparsed node differs: impl={base["self_kind"]}@{base["self_path"]} model={st["kind"]}@{st["path"]}')
     if not raised:
@@ -1134,7 +1169,7 @@ def build_predicted(r, m, tree_out):
     return T0
 
 
-OPSIG = {'put_src': 'put_src-reparse', 'raw-put': 'raw-put', 'reparse': 'reparse'}
+OPSIG = {'put_src': 'put_src-reparse', 'raw-put': 'raw-put', 'raw-put-to': 'raw-put-to', 'reparse': 'reparse'}
 
 
 def phase_e(arg):
@@ -1170,7 +1205,7 @@ def phase_e(arg):
                 res['fail'].append((sig('not-atomic'), f'raised {raised[0]} but source or tree changed'))
             return res
         if not reached:
-            if r['op'] == 'raw-put' and raised[0] in ('ValueError', 'NodeError', 'IndexError'):
+            if r['op'] in ('raw-put', 'raw-put-to') and raised[0] in ('ValueError', 'NodeError', 'IndexError'):
                 res['tally']['refused_before_reparse'] = True     # argument validation of the node put (delete / insert contract)
                 return res
             if R is not None:
@@ -1185,7 +1220,7 @@ def phase_e(arg):
     # rectangle actually used (raw put): must be the CPython span of the node
     rect_ev = ev_of(r, 'rect') if reached else None
     if rect_ev is not None and (rect_ev['rect'] != list(rect) or '\n'.join(rect_ev['new_lines']) != r['new']):
-        if r['op'] == 'raw-put':
+        if r['op'] in ('raw-put', 'raw-put-to'):
             if r.get('loc_bad_before'):
                 pass        # the locations were already wrong before this step (stale cache): judged below by the splice and the tree
             else:
@@ -1402,4 +1437,62 @@ def span_edits():
                             char_col(lines[b.end_lineno - 1], b.end_col_offset))
                     for new in ('p\n' + ind + 'q', 'p\n' + ind + 'qqqqqqqqqq', 'p; q', 'p\n' + ind + 'q  # c', 'p'):
                         out.append((src, (new, *rect), node.__class__.__name__ + ':span-' + f))
+    return out
+
+
+# ---------------------------------------------------------------------------------------------------------------------
+# tail chains: the edited statement is the last node of every enclosing block, through every kind of block
+
+def _blk(kind, inner, ind):
+    """lines of a block statement of `kind` at indentation `ind` whose LAST statement(s) are `inner` (already indented
+    one level deeper)"""
+    i = ' ' * ind
+    j = ' ' * (ind + 4)
+    return {
+        'if': [i + 'if a:'] + inner,
+        'else': [i + 'if a:', j + 'p', i + 'else:'] + inner,
+        'elif': [i + 'if a:', j + 'p', i + 'elif b:'] + inner,
+        'for': [i + 'for i in x:'] + inner,
+        'while-else': [i + 'while a:', j + 'p', i + 'else:'] + inner,
+        'with': [i + 'with a as b:'] + inner,
+        'finally': [i + 'try:', j + 'p', i + 'finally:'] + inner,
+        'except': [i + 'try:', j + 'p', i + 'except E:'] + inner,
+        'def': [i + 'def f():'] + inner,
+        'class': [i + 'class C:'] + inner,
+        'match': [i + 'match m:', j + 'case 1:', ' ' * (ind + 8) + 'p', j + 'case _:'] + [' ' * 4 + l for l in inner],
+    }[kind]
+
+
+_CHAIN_KINDS = ['if', 'else', 'elif', 'for', 'while-else', 'with', 'finally', 'except', 'def', 'class', 'match']
+
+
+def tail_chain_edits():
+    """[(src, (new, ln, col, end_ln, end_col), label)]: every block kind inside every block kind (and `match` between two
+    others), the innermost last statement `res = jump(arg, 2)` edited so that it ends before the end of the put text, at
+    the same place, or later; every enclosing block ends with it"""
+    out = []
+    chains = [(a, b) for a in _CHAIN_KINDS for b in _CHAIN_KINDS] + [(a, 'match', b) for a in _CHAIN_KINDS for b in _CHAIN_KINDS if b != 'match']
+    for chain in chains:
+        depth = sum(8 if k == 'match' else 4 for k in chain)
+        inner = [' ' * depth + 'res = jump(arg, 2)']
+        ind = depth
+        for k in reversed(chain):
+            ind -= 8 if k == 'match' else 4
+            # `inner` is indented for a plain block; _blk re-indents it by 4 more for match (case level)
+            if k == 'match':
+                inner = [l[4:] for l in inner]
+            inner = _blk(k, inner, ind)
+        for tail in ('', '\nz = 0'):
+            src = '\n'.join(inner) + tail
+            try:
+                ast.parse(src)
+            except SyntaxError:
+                continue
+            lines = src.split('\n')
+            ln = next(i for i, l in enumerate(lines) if 'res = jump' in l)
+            c = lines[ln].index('(arg')
+            e = len(lines[ln])
+            for new, rect in (('  # 2', (ln, c, ln, e)), ('', (ln, c, ln, e)), ('(arg, 2, 33)', (ln, c, ln, e)),
+                              ('(arg,\n' + ' ' * depth + '     2)  # c', (ln, c, ln, e)), ('pass  # c', (ln, lines[ln].index('res'), ln, e))):
+                out.append((src, (new, *rect), 'chain:' + '>'.join(chain)))
     return out
